@@ -1122,13 +1122,18 @@ class FuncContains(ValueFunc):
         return ["obj", "part"]
 
     def execute(self, args, environment, pos):
-        if args.isNull("str"):
+        if args.isNull("obj"):
             return FALSE
         obj = args.get("obj")
-        if obj.isList() or obj.isSet() or obj.isMap() or obj.isObject():
+        if obj.isList() or obj.isSet() or obj.isMap():
             return ValueBoolean.fromval(args.get("part") in obj.value)
+        if obj.isObject():
+            part = args.get("part")
+            return ValueBoolean.fromval(
+                part.isString() and part.value in obj.value
+            )
         return ValueBoolean.fromval(
-            str(obj).find(args.getString("part").value) != -1
+            obj.asString().value.find(args.getString("part").value) != -1
         )
 
 
